@@ -320,7 +320,7 @@ def _re_cases(Ts, ks, mls):
     # the same pattern text was used before by a context without limits (and by an earlier eval of this context): whatever
     # the engine remembers about a pattern must not carry that use's deadline, or lack of one, into this evaluation
     for rx, (p, s) in REGEXES.items():
-        short = S(s[:6])
+        short = S(s[:3])
         uses = ["%s.search(%s)" % (short, S(p)), "%s.match(%s)" % (short, S(p)), "new RegExp(%s).test(%s)" % (S(p), short),
                 "RegExp(%s).exec(%s)" % (S(p), short), "%s.split(new RegExp(%s))" % (short, S(p)), "/%s/.test(%s)" % (p, short)]
         for api in ("match-string", "search-string", "RegExp-ctor", "RegExp-call", "test", "split"):
